@@ -96,6 +96,8 @@ def phase2_one(m):
     o = tempfile.mkdtemp(prefix=f"mutsweep.{os.getppid()}.out.")
     try:
         ids = CHECKS.get(m["file"], "C01 C02")
+        if os.environ.get("SWEEP_REST"):  # the checks NOT mapped to the file (second opinion on a silent mutant)
+            ids = " ".join(f"C{i:02d}" for i in range(1, 21) if f"C{i:02d}" not in ids.split() and i != 20)
         rc, out = sh(f"VERIF_REPO={w} VERIF_OUT={o} {V}/bin/check --first-of {ids}", timeout=3600)
         ran = [l[3:].strip() for l in out.splitlines() if l.startswith("== ")]
         viol = [l for l in out.splitlines() if l.startswith("VIOLATION")]
@@ -132,7 +134,15 @@ def main():
                 return False
             line = open(os.path.join("/repo", m["file"])).read().splitlines()[m["line"] - 1]
             return "reflect.TypeOf(" in line and m["old"] == "0"
-        ms = [m for m in ms if not type_only(m)]
+        # "return 0, <error>" -> "return 1, <error>": the count returned beside an error is never looked at
+        # (every caller in the library returns at once when err != nil): equivalent by construction
+        import re
+        def error_path_n(m):
+            if m["op"] not in ("int+1", "int-1") or m["old"] != "0":
+                return False
+            line = open(os.path.join("/repo", m["file"])).read().splitlines()[m["line"] - 1]
+            return re.search(r"return 0, (fmt\.Errorf|err\b|errors\.)", line) is not None
+        ms = [m for m in ms if not type_only(m) and not error_path_n(m)]
     if only:
         ms = [m for m in ms if only in m["file"]]
     if ids is not None:
